@@ -129,6 +129,26 @@ def _case(args):
             i = [k for k in range(len(r)) if k >= len(b) or r[k] != b[k]][0]
             per = len(r) // max(1, len(texts))
             rec['diffs'].append({'variant': name, 'text': texts[i // per] if per else None, 'what': ['parse', 'interactive', 'scan'][i % per] if per == 3 else 'parse', 'original': r[i], 'variant_result': b[i] if i < len(b) else None})
+    # ---- the parse table's own re-encoding (ParseTableBase.serialize/deserialize, Enumerator) against the Lean TableSer model
+    try:
+        from lark.parsers.lalr_analysis import IntParseTable, Shift, Reduce
+        from lark.utils import SerializeMemoizer
+        from lark.grammar import Rule
+        from lark.lexer import TerminalDef
+        pt = p.parser.parser._parse_table
+        memo = SerializeMemoizer([Rule, TerminalDef])
+        data = pt.serialize(memo)
+        rid = {id(r): i for r, i in memo.memoized.enums.items()}
+        def act(a):
+            return [0, a[1]] if a[0] is Shift else [1, rid[id(a[1])]]
+        rec['table'] = [[st, [[str(tok), ] + act(a) for tok, a in row.items()]] for st, row in pt.states.items()]
+        rec['table_ser'] = {'tokens': [str(data['tokens'][i]) for i in range(len(data['tokens']))],
+                            'states': [[st, [[i, a[0], a[1] if a[0] == 0 else a[1]['@']] for i, a in row.items()]] for st, row in data['states'].items()]}
+        back = IntParseTable.deserialize(data, {i: r for r, i in memo.memoized.enums.items()})
+        rec['table_back_equal'] = (back.states == pt.states and list(back.states) == list(pt.states) and all(list(back.states[k_]) == list(pt.states[k_]) for k_ in pt.states)
+                                   and back.start_states == pt.start_states and back.end_states == pt.end_states)
+    except AttributeError as e:
+        rec['table_export_error'] = repr(e)
     # ---- save / load (with and without load-time options)
     buf = io.BytesIO(); p.save(buf)
     buf.seek(0); compare('Lark.load(save)', behave(Lark.load(buf), texts, ns, use_bytes))
@@ -243,6 +263,7 @@ def run(ctx, res):
     N = tier_scale(ctx['tier'], 900, 9000) * (3 if ctx['deepen'] else 1)
     jobs = [(shapelib.gen_grammar(rng), rng.randrange(1 << 30), i % 3 == 0) for i in range(N)]
     outs = pmap(_case, jobs, chunksize=2)
+    tcases, twhere = [], []
     for job, (st, rec) in zip(jobs, outs):
         if st != 'ok':
             if st == 'exc':
@@ -261,3 +282,20 @@ def run(ctx, res):
         if rec['opts']['use_bytes']: res.count('bytes_mode')
         for dff in rec['diffs']:
             res.violation('%s does not behave like the original (%s)' % (dff['variant'], dff['what']), {'grammar': rec['grammar'], 'opts': rec['opts'], 'detail': dff})
+        if 'table' in rec:
+            tcases.append({'op': 'table_ser', 'table': rec['table'], 'enc': rec['table_ser']}); twhere.append(rec)
+        elif 'table_export_error' in rec:
+            res.count('parse_table_not_exported')
+    if ctx['driver_ok'] and tcases:
+        from common import run_driver_parallel
+        for rec, m in zip(twhere, run_driver_parallel(tcases)):
+            res.count('parse_tables_reencoded'); res.count('parse_table_rows', len(rec['table']))
+            if 'error' in m:
+                raise InfraError('driver table_ser: %s' % m['error'])
+            where = {'grammar': rec['grammar'], 'opts': rec['opts']}
+            if not rec['table_back_equal']:
+                res.violation('ParseTable.deserialize(ParseTable.serialize(t)) is not the parse table t (the saved/cached/stand-alone parser runs on another table)', where)
+            elif m['tokens'] != rec['table_ser']['tokens'] or m['states'] != rec['table_ser']['states']:
+                res.corr_break('ParseTableBase.serialize differs from the Lean TableSer.serialize (theorem TableSer.roundtrip)', dict(where, model={'tokens': m['tokens'], 'states': m['states'][:3]}, code={'tokens': rec['table_ser']['tokens'], 'states': rec['table_ser']['states'][:3]}))
+            elif m['deser_of_code'] != rec['table']:
+                res.corr_break('the Lean TableSer.deserialize of the real encoded table is not the real table', where)
